@@ -42,7 +42,8 @@ IDS = {
     ("panic", "parquet/src/util/bit_util.rs", "range end index"): "C08-pq-bit-reader-range-end",
 }
 ALLOC_IDS = {"arrow_ipc::compression": "C08-ipc-decompress-alloc", "arrow_ipc::reader": "C08-ipc-length-field-alloc",
-             "parquet::schema": "C08-pq-thrift-schema-alloc"}
+             "parquet::schema": "C08-pq-thrift-schema-alloc", "parquet::arrow": "C08-pq-arrow-value-decoder-alloc",
+             "parquet::encodings": "C08-pq-dict-decoder-alloc"}
 HANG_IDS = {"avro_ocf": "C08-avro-ocf-no-progress-loop"}
 
 
